@@ -6,9 +6,10 @@ open Gen.C20
 
 /-! ## Throttle -/
 
-/-- at most `pendingLimit + 1` submitters are between increment and decrement, and `pending` never undercounts them -/
+/-- `pending` is exactly the number of submitters between the increment and the decrement, and at most
+`pendingLimit + 1` of them exist — whatever `Disable` calls are interleaved -/
 structure TInv (t : Thr) : Prop where
-  le_pending : t.waiting ≤ t.pending
+  eq : t.pending = t.waiting
   bound : t.waiting ≤ t.pendingLimit + 1
 
 theorem waiting_set_of_idle (t : Thr) (tid : Nat) (pc : SPc) (h : t.pcs[tid]? = some .idle) :
@@ -25,41 +26,47 @@ theorem waiting_set_of_waiting (t : Thr) (tid : Nat) (h : t.pcs[tid]? = some .wa
   simp
   omega
 
+/-- **tie to the generated guard of `t.pending++`**: it is the negation of the test that makes `Submit` return
+`ThrottleOverflow` — the increment happens exactly for the submissions that go on to the loop (and the decrement) -/
+theorem incr_iff_not_overflow (too disabled : Bool) : incrGuard too disabled = !overflowReturns too := by
+  cases too <;> cases disabled <;> rfl
+
 theorem step_inv (t : Thr) (tid : Nat) (h : TInv t) : TInv (t.step tid) := by
   unfold Thr.step
   split
   · rename_i hidle
     have hw := waiting_set_of_idle t tid
+    have heq := h.eq
+    have hb := h.bound
+    unfold Thr.waiting at heq hb
     unfold Thr.enter
-    simp only [tooMany, incrGuard, overflowReturns]
+    simp only [incr_iff_not_overflow]
+    simp only [tooMany, overflowReturns]
     by_cases htoo : t.pendingLimit < t.pending
-    · -- overflow: nobody starts waiting; pending may leak upwards when disabled
+    · -- overflow: nobody starts waiting and `pending` is not touched
       have := hw .overflow hidle
-      simp only [htoo, decide_true, if_true]
+      simp only [htoo, decide_true, Bool.not_true, Bool.false_eq_true, if_false, if_true]
       constructor
+      · show t.pending = (t.pcs.set tid .overflow).count .waiting
+        rw [this]; simp; exact heq
       · show (t.pcs.set tid .overflow).count .waiting ≤ _
-        rw [this]; have := h.le_pending; unfold Thr.waiting at this
-        simp; split <;> omega
-      · show (t.pcs.set tid .overflow).count .waiting ≤ _
-        rw [this]; have := h.bound; unfold Thr.waiting at this; simp; omega
+        rw [this]; simp; exact hb
     · have := hw .waiting hidle
-      simp only [htoo, decide_false, Bool.not_false, Bool.true_or, if_true, Bool.false_eq_true, if_false]
-      have h1 := h.le_pending
-      unfold Thr.waiting at h1
+      simp only [htoo, decide_false, Bool.not_false, if_true, Bool.false_eq_true, if_false]
       constructor
-      · show (t.pcs.set tid .waiting).count .waiting ≤ t.pending + 1
-        rw [this]; simp; omega
+      · show t.pending + 1 = (t.pcs.set tid .waiting).count .waiting
+        rw [this]; simp; exact heq
       · show (t.pcs.set tid .waiting).count .waiting ≤ t.pendingLimit + 1
         rw [this]; simp; omega
   · rename_i hwait
     have := waiting_set_of_waiting t tid hwait
-    have h1 := h.le_pending
+    have h1 := h.eq
     have h2 := h.bound
     unfold Thr.waiting at h1 h2
     unfold Thr.exit
     simp only [exitDecrement]
     constructor
-    · show (t.pcs.set tid .done).count .waiting ≤ t.pending - 1
+    · show t.pending - 1 = (t.pcs.set tid .done).count .waiting
       omega
     · show (t.pcs.set tid .done).count .waiting ≤ t.pendingLimit + 1
       omega
@@ -68,13 +75,13 @@ theorem step_inv (t : Thr) (tid : Nat) (h : TInv t) : TInv (t.step tid) := by
 theorem ev_inv (t : Thr) (e : Thr.Ev) (h : TInv t) : TInv (t.ev e) := by
   cases e with
   | sub tid => exact step_inv t tid h
-  | setDisabled b => exact ⟨h.le_pending, h.bound⟩
+  | setDisabled b => exact ⟨h.eq, h.bound⟩
   | spawn =>
-    have h1 := h.le_pending
+    have h1 := h.eq
     have h2 := h.bound
     unfold Thr.waiting at h1 h2
     constructor
-    · show (t.pcs ++ [SPc.idle]).count .waiting ≤ t.pending
+    · show t.pending = (t.pcs ++ [SPc.idle]).count .waiting
       rw [List.count_append]; simp; exact h1
     · show (t.pcs ++ [SPc.idle]).count .waiting ≤ t.pendingLimit + 1
       rw [List.count_append]; simp; exact h2
@@ -97,59 +104,6 @@ theorem exec_pendingLimit (t : Thr) (es : List Thr.Ev) : (t.exec es).pendingLimi
 
 theorem start_inv (limit : Nat) (d : Bool) (n : Nat) : TInv (Thr.start limit d n) := by
   constructor <;> simp [Thr.start, Thr.waiting, List.count_replicate]
-
-/-- while the throttle is never disabled, `pending` is exactly the number of waiting submitters -/
-structure TExact (t : Thr) : Prop where
-  eq : t.pending = t.waiting
-  enabled : t.disabled = false
-
-theorem ev_exact (t : Thr) (e : Thr.Ev) (h : TExact t) (he : e ≠ .setDisabled true) : TExact (t.ev e) := by
-  have heq := h.eq
-  have hd := h.enabled
-  unfold Thr.waiting at heq
-  cases e with
-  | sub tid =>
-    simp only [Thr.ev]
-    unfold Thr.step
-    split
-    · rename_i hidle
-      have hw := waiting_set_of_idle t tid
-      unfold Thr.enter
-      simp only [tooMany, incrGuard, overflowReturns, hd]
-      by_cases htoo : t.pendingLimit < t.pending
-      · have := hw .overflow hidle
-        simp only [htoo, decide_true, if_true]
-        refine ⟨?_, rfl⟩
-        show _ = (t.pcs.set tid .overflow).count .waiting
-        rw [this]; simp; exact heq
-      · have := hw .waiting hidle
-        simp only [htoo, decide_false, Bool.not_false, Bool.true_or, if_true, Bool.false_eq_true, if_false]
-        refine ⟨?_, rfl⟩
-        show t.pending + 1 = (t.pcs.set tid .waiting).count .waiting
-        rw [this]; simp; exact heq
-    · rename_i hwait
-      have := waiting_set_of_waiting t tid hwait
-      unfold Thr.exit
-      simp only [exitDecrement]
-      refine ⟨?_, hd⟩
-      show t.pending - 1 = (t.pcs.set tid .done).count .waiting
-      omega
-    · exact h
-  | setDisabled b =>
-    cases b with
-    | true => exact absurd rfl he
-    | false => exact ⟨h.eq, rfl⟩
-  | spawn =>
-    refine ⟨?_, hd⟩
-    show t.pending = (t.pcs ++ [SPc.idle]).count .waiting
-    rw [List.count_append]; simp; exact heq
-
-theorem exec_exact (t : Thr) (es : List Thr.Ev) (h : TExact t) (he : ∀ e ∈ es, e ≠ .setDisabled true) :
-    TExact (t.exec es) := by
-  induction es generalizing t with
-  | nil => exact h
-  | cons e es ih =>
-    exact ih _ (ev_exact t e h (he e (List.mem_cons_self ..))) (fun e' h' => he e' (List.mem_cons_of_mem _ h'))
 
 /-! ## the retry loop -/
 
